@@ -31,6 +31,15 @@ def run_one(c):
     ds = a.get_symmetry_dataset()
     out = {"id": c["id"], "number": int(g(ds, "number")), "hall_number": int(g(ds, "hall_number")),
            "international": str(g(ds, "international")), "pointgroup_spglib": str(g(ds, "pointgroup"))}
+    # an INDEPENDENT symmetry search on the input as given (same tolerance), not through the analyzer: the reference for
+    # "the idealized standardized atoms of the input"
+    dsi = spglib.get_symmetry_dataset((np.array(cr["cell"], dtype=float), np.array(cr["scaled_positions"], dtype=float) % 1.0,
+                                       np.array(cr["numbers"])), symprec=tol)
+    if dsi is not None:
+        out["ind_number"] = int(g(dsi, "number"))
+        out["ind_std_lattice"] = np.array(g(dsi, "std_lattice")).tolist()
+        out["ind_std_positions"] = np.array(g(dsi, "std_positions")).tolist()
+        out["ind_std_types"] = [int(x) for x in g(dsi, "std_types")]
     out["std_lattice"] = np.array(g(ds, "std_lattice")).tolist()
     out["std_positions"] = np.array(g(ds, "std_positions")).tolist()
     out["std_types"] = [int(x) for x in g(ds, "std_types")]
